@@ -63,7 +63,7 @@ def charset_string(rng):
         if rng.random() < 0.5:
             # also ranges that start with a character that is special in regular expressions ( ( ) * + . ? { | } )
             a = rng.choice([0x30, 0x41, 0x61, 0x3b1, 0x4e00, 0x30, 0x41, 0x61, 0x28, 0x29, 0x2a, 0x2b, 0x2e, 0x3f, 0x7b, 0x7c])
-            b = a + rng.randint(1, 20)
+            b = a + rng.choice([0, 0, 1, 2, 3, 5, 8, 13, 20])      # also ranges of one code point ('x-x')
             if b in (0x2d, 0x5c, 0x5b, 0x5d):
                 b += 1
             parts.append(chr(a) + '-' + chr(b))
